@@ -105,6 +105,7 @@ theorem services_leaves : Leaves (keeps ServicesInv) where
   gate := fun _ _ _ _ _ h => h
   forget := fun _ _ h => h
   expire := fun _ h => h
+  expireSome := fun _ _ h => h
   acquire := by
     intro t c n flags _ h
     unfold acquire
